@@ -92,6 +92,11 @@ def _run(prop, tier, seed, replay, here, repo, env, binp, scratch, cfg, t0):
                              "kind": o["kind"], "instances": o["instances"], "vc_bytes": o.get("vc_bytes", 0),
                              "weak": o.get("candidate_model_from_instantiation", False), "func": key,
                              "replay_test": o.get("replay_test", ""), "replay_note": o.get("replay_note", "")})
+    if "govc" in cfg["engines"]:
+        for t in res.get("table_facts") or []:
+            if prop in (t.get("props") or []):
+                obls.append({"id": "govc/" + t["name"], "status": t["status"], "engine": "govc", "solvers": t.get("solvers") or [], "time": 0,
+                             "model": t.get("model", ""), "pos": "", "kind": "table", "instances": 1, "vc_bytes": 0, "weak": False, "func": t["name"]})
     for th in threads:
         th.join()
     for eng in cfg["engines"]:
@@ -124,6 +129,10 @@ def _run(prop, tier, seed, replay, here, repo, env, binp, scratch, cfg, t0):
             violations.append((o, "vacuity guard: %s" % o["status"]))
             continue
         if o["id"] in resid:
+            continue
+        if o.get("bounded"):
+            if o["status"] != "discharged":
+                violations.append((o, "bounded stand-in found a mismatch"))
             continue
         if o["status"] != "discharged" and o["id"] in kf_open:
             knowns.append((o, kf_open[o["id"]]))
